@@ -8,7 +8,8 @@ CFG = dict(
                "with >= 1 line); Has* flags are only raised; mappings that carry function names and their locations are left "
                "alone unless force is requested; demangling keeps non-empty names non-empty (for demanglers that do); the result passes "
                "CheckValid whenever the input did and the new function ids fit below 2^64; symbolz adjust detects every wrap-around; "
-               "-symbolize=none does nothing; the evaluated checkers are sound for these relations; the driver pipeline around Symbolize (fetch_* theorems) keeps all of it and restores the mapping files outside known finding F34 (refuted twin). Model tied to the code by ~2,300 "
+               "-symbolize=none does nothing; the evaluated checkers are sound for these relations; the driver pipeline around Symbolize (fetch_* theorems) keeps all of it and restores the mapping files outside known finding F34 (refuted twin); for ANY symbolizer "
+               "plug-in (arbitrary function) a profile returned by the pipeline passes CheckValid (validity is re-checked after symbolization). Model tied to the code by ~2,300 "
                "differential cases per quick run (whole Symbolize runs against scripted plug-ins + direct calls of adjust, the symbolz "
                "regexp, removeMatching, looksLikeDemangledCPlusPlus).",
     level_note="Oracle-relative: ObjTool/ObjFile, the symbolz endpoint and demangle.Filter are arbitrary (scripted / tabulated), not modelled. "
@@ -26,7 +27,11 @@ CFG = dict(
          "(real code, one profile handed over by a fetcher plug-in reporting a remote URL or none, object tool that finds no binary, "
          "answer script starting when the Symbolizer is entered) over 17 mode spellings x fetched profiles whose mappings often have "
          "neither file nor build id or that have no mapping at all, compared with the pipeline model (fake mapping, "
-         "collectMappingSources, Symbolize, unsourceMappings, CheckValid) and judged by the same clauses + saved copy agrees. distinct = sha256 of the input term; non-trivial = a plug-in was called or the profile changed "
+         "collectMappingSources, Symbolize, unsourceMappings, CheckValid) and judged by the same clauses + saved copy agrees + Go's own CheckValid accepts what is returned; stream fetch-id-wrap = the same with "
+         "function ids within 2 of 2^64 and mappings that still need symbols (the id counter wraps to the reserved 0: fetchProfiles must refuse); "
+         "op fetchx = fetchProfiles with a third-party symbolizer plug-in that leaves the profile in one of 10 scripted states "
+         "(unregistered / aliased / id-0 / duplicate-id function, nil function, unregistered mapping, value count, duplicate location id, "
+         "error after corrupting, well-behaved), its exit state shipped as the plug-in's answer. distinct = sha256 of the input term; non-trivial = a plug-in was called or the profile changed "
          "(sym), offset != 0 (adjust), the regexp matched (re), the name changed (rm), non-empty name (looks)",
     spec_what="symbolization changed something other than lines / names / has-flags (or touched a mapping that already had symbols without "
               "force, emptied a name, left an invalid profile, or adjust missed a wrap-around): C12 statement",
